@@ -354,7 +354,20 @@ fn cutoff_history(rng: &mut Rng, probes: &mut Vec<u64>) -> Vec<String> {
             let t = mk(b0 + gap + c, 0, origin);
             used.push(t);
             pl += 1;
-            toks.push(format!("s:{}:{:x}:{:x}:{:x}:k", src, 9 + c, t, pl));
+            // heard again through a single put, a bulk put or a bulk delete (as a repair would)
+            match rng.below(4) {
+                0 => {
+                    let t2 = mk(b0 + gap + c, 1, origin);
+                    used.push(t2);
+                    toks.push(format!("D:{}:k:{:x}.{:x},{:x}.{:x}", src, 20 + c, t, 30 + c, t2));
+                },
+                1 => {
+                    let t2 = mk(b0 + gap + c, 1, origin);
+                    used.push(t2);
+                    toks.push(format!("S:{}:k:{:x}.{:x}.{:x},{:x}.{:x}.{:x}", src, 20 + c, t, pl, 30 + c, t2, pl + 0x100));
+                },
+                _ => toks.push(format!("s:{}:{:x}:{:x}:{:x}:k", src, 9 + c, t, pl)),
+            }
         }
     }
     if rng.chance(1, 3) { toks.push("P:k".into()); }
